@@ -189,3 +189,11 @@ def child_history(exists: bool, status_idx: int, replay_children: bool, has_deta
         h.check(ev[0][0] == "update" and ev[0][1] is A.START and ev.index(("ufn",)) > 0,
                 "a context's START must be handed over before its body (and so before any descendant's first update)")
     h.end()
+
+
+# "a child's first update never precedes its parent context's start" relies on FIFO delivery of the pipeline, including across the overflow queue
+# (lemma shared with C05)
+from harness import C05 as _C05  # noqa: E402
+
+fifo_delivery_across_overflow = _C05.stream_sizes
+fifo_delivery_across_overflow.__module__ = __name__
